@@ -179,7 +179,7 @@ def make_workload(rng, stats=None, lo=3, hi=10, per_class=2) -> Workload:
         ts = []
         for _ in range(per_class):
             shape = gen.draw_shape(rng)
-            if shape["name"] == "big":
+            while shape["name"] in ("big", "huge"):
                 shape = gen.draw_shape(rng)
             ts.append(gen.to_tree(gen.gen_instance(rng, c, shape)))
         if per_class >= 2 and gen.has_float(ts[0]) and rng.random() < 0.6:
@@ -245,6 +245,18 @@ def _from_tree_poison(t):
     return gen.from_tree(t)
 
 
+def _uvarint(v: int) -> bytes:
+    out = bytearray()
+    while True:
+        b = v & 0x7F
+        v >>= 7
+        if v:
+            out.append(b | 0x80)
+        else:
+            out.append(b)
+            return bytes(out)
+
+
 def exec_op(op: list, wl: Workload, cache: dict) -> str | None:
     """Execute one op; return a violation signature or None.  ``cache`` maps
     tree positions to reconstructed instances (harness-side only)."""
@@ -272,10 +284,15 @@ def exec_op(op: list, wl: Workload, cache: dict) -> str | None:
         return None
     if kind in ("enc", "encn"):
         inst = None
+        fresh = kind == "enc" and len(op) > 4 and op[4]
         if ii >= 0:
-            inst = cache.get((ci, ii))
+            inst = None if fresh else cache.get((ci, ii))
             if inst is None:
-                inst = cache[(ci, ii)] = gen.from_tree(wl.trees[ci][ii])
+                # "fresh": a newly allocated (equal) instance - it may reuse the memory of an
+                # entity that an earlier op decoded and dropped (identity-keyed side tables)
+                inst = gen.from_tree(wl.trees[ci][ii])
+                if not fresh:
+                    cache[(ci, ii)] = inst
         reps = op[3] if kind == "enc" else 1
         w = entity_writer(cls, nullable=True) if kind == "encn" else entity_writer(cls)
         want = (b"\xff" if inst is None else b"\x01" + g[0]) if kind == "encn" else g[0]
@@ -308,6 +325,23 @@ def exec_op(op: list, wl: Workload, cache: dict) -> str | None:
                     return f"{kind}:value-differs-from-isolated-golden"
             if src.pos != len(data):
                 return f"{kind}:consumed-differs-from-isolated-golden"
+        return None
+    if kind == "decfwd":
+        # a forward-compatible message: the same entity with one tagged field this schema
+        # version does not know appended to the top-level tagged section (count 0 -> 1)
+        data = g[0]
+        if not cls.__flexible__ or not data.endswith(b"\x00") or universe.has_tagged_fields(cls):
+            return None
+        tag, payload = op[3], bytes.fromhex(op[4])
+        fwd = data[:-1] + b"\x01" + _uvarint(tag) + _uvarint(len(payload)) + payload
+        src = streams.SimSource(fwd)
+        try:
+            val = entity_reader(cls)(src)
+        except Exception as e:  # noqa: BLE001
+            return f"decfwd:exception:{type(e).__name__}"
+        if type(val) is not cls or gen.to_tree(val) != g[1] or src.pos != len(fwd):
+            return "decfwd:value-differs-from-isolated-golden"
+        del val
         return None
     if kind == "encbad":
         bad = _poison(wl.trees[ci][ii], op[3])
@@ -352,15 +386,18 @@ def gen_ops(rng, wl: Workload, n: int, max_reps: int = 50) -> list[list]:
         elif r < 0.16:
             ops.append(["mkw", rng.randrange(len(wl.pool)), rng.random() < 0.3])
         elif r < 0.40:
-            ops.append(["enc", ci, ii, rng.choice((1, 1, 1, 2, 3, 17, max_reps, 130, 300))])
+            ops.append(["enc", ci, ii, rng.choice((1, 1, 1, 2, 3, 17, max_reps, 130, 300)), rng.random() < 0.4])
         elif r < 0.64:
             ops.append(["dec", ci, ii, rng.choice((1, 1, 1, 2, 3, 17, max_reps, 130, 300))])
         elif r < 0.70:
             ops.append(["encn", ci, rng.choice((ii, -1))])
         elif r < 0.76:
             ops.append(["decn", ci, rng.choice((ii, -1))])
-        elif r < 0.88:
+        elif r < 0.84:
             ops.append(["encbad", ci, ii, rng.getrandbits(32)])
+        elif r < 0.90:
+            ops.append(["decfwd", ci, ii, rng.choice((7, 100, 127, 128, 16383, 2**31 - 1)), rng.randbytes(rng.choice((0, 1, 5, 130))).hex()])
+            ops.append(["enc", ci, ii, 1, True])
         else:
             ops.append(["decbad", ci, ii, rng.choice(("cut", "flip")), rng.getrandbits(16)])
     return ops
@@ -660,7 +697,7 @@ def gen_programs(rng, wl: Workload) -> list[list]:
             elif r < 0.2:
                 prog.append(["mkw", ci, rng.random() < 0.3])
             elif r < 0.55:
-                prog.append(["enc", ci, ii, 1])
+                prog.append(["enc", ci, ii, 1, rng.random() < 0.3])
             elif r < 0.9:
                 prog.append(["dec", ci, ii, 1])
             elif r < 0.95:
@@ -775,7 +812,7 @@ def run_task(task: dict) -> dict:
             else:
                 cls = rng.choice(universe.load())
             shape = {**gen.draw_shape(rng), "null_rate": 0.1, "nondefault_rate": 0.9}
-            if shape["name"] in ("big", "long_array"):
+            if shape["name"] in ("big", "long_array", "huge"):
                 shape = {**shape, "str": "small", "long_arrays": 0}
             trees = [[gen.to_tree(gen.gen_instance(rng, cls, shape)) for _ in range(2)]]
             wl = Workload([universe.qualname(cls)], trees)
@@ -904,7 +941,7 @@ def candidates(scenario: dict):
             size //= 2
         for i, op in enumerate(ops):
             if op[0] in ("enc", "dec") and op[3] > 1:
-                yield {**scenario, "ops": ops[:i] + [[op[0], op[1], op[2], 1]] + ops[i + 1:]}
+                yield {**scenario, "ops": ops[:i] + [[op[0], op[1], op[2], 1] + list(op[4:])] + ops[i + 1:]}
     elif layer == "T":
         progs = scenario["programs"]
         sched = scenario["schedule"]
